@@ -11,8 +11,10 @@ import JaqalProofs.Lemmas.PassTextSubs
   in the body.  That is needed: `GateReplacer.visit_NamedQubit` RE-INDEXES every qubit of a macro body
   (`alias_from[alias_index]`), so a declared alias `q` (`map q r[k]`) comes out as the element `r[k]`, and an element `a[i]` of
   an unbound parameter `a` indexed by a substituted float would be called `a[0.5]`.  `NamesOK` says nothing about the source
-  of a qubit that is written by its own name (`namesOK_macros_needs_qual`: a `Legal`, printable, `NamesOK` circuit whose
-  expansion is not `NamesOK`).
+  of a qubit that is written by its own name.  `QualC` is kept by the pass.
+* `parsed_qualC`: every parsed circuit (any configuration) is `QualC` — from `parsed_namesOK`, `ScopedC`
+  (`parseProgram_facts`) and a new induction over the builder's loop (`buildNoMemo_it_any`: every qubit reference is written
+  as an element, so its name has a bracket, or is a declared alias, so `DeclP` speaks about its source and index).
 -/
 set_option linter.unusedVariables false
 set_option linter.unusedSimpArgs false
@@ -279,5 +281,588 @@ theorem macros_printable {p : Bool} {c c' : Circuit} (hL : Passes.Legal c) (hp :
   · show l.all okTop = true
     rw [all_okTop]
     exact expList_okItems _ hcall false bs l h5 hl
+
+
+theorem itemName_strIndex {an str : String} {i : Val} (hr : okRef i = true) (h : strIndex i = .ok str) :
+    Builder.itemName an i = some (an ++ "[" ++ str ++ "]") := by
+  cases i <;> simp [okRef] at hr <;> simp only [strIndex, pure, Except.pure, Except.ok.injEq] at h <;> subst h
+  · simp [Builder.itemName, toString, NumText.genInt_eq_toString]
+  · simp [Builder.itemName, toString]
+  · simp [Builder.itemName, toString]
+
+theorem checkQubit_okRef {s i : Val} (hs : isReg s = true) (h : checkQubit s (filterFloat i) = .ok ()) :
+    okRef (filterFloat i) = true := by
+  have hsa : avKind? s = none := by cases s <;> simp [isReg] at hs <;> rfl
+  cases hi : filterFloat i with
+  | int k => rfl
+  | const _ _ => rfl
+  | param _ _ => rfl
+  | flt d =>
+    exfalso
+    have hd : d.isIntegral = false := by
+      cases i <;> simp [filterFloat] at hi
+      rename_i d'
+      split at hi
+      · cases hi
+      · cases hi; rename_i hn; simpa using hn
+    rw [hi] at h
+    simp [checkQubit, hsa, avKind?, hd] at h
+    cases s <;> simp [isReg] at hs <;> simp at h
+  | _ =>
+    exfalso
+    rw [hi] at h
+    simp [checkQubit, hsa, avKind?] at h
+    try (cases s <;> simp [isReg] at hs <;> simp at h)
+
+/-! ## layer B -/
+
+section layerB
+variable {P : String → Prop} {R : Dec → Prop}
+
+/-- a gate argument inside a macro body whose parameters are `S`: a parameter is one of `S`; a qubit reference names its
+source and its index legally, and a source that is a parameter is one of `S` -/
+def ArgQ (P : String → Prop) (S : List String) : Val → Prop
+  | .param n _ => n ∈ S
+  | .qubit _ src idx => P (Pipeline.nameOf src) ∧ RefP P idx ∧ ∀ s k, src = .param s k → s ∈ S
+  | _ => True
+
+/-- a closed call argument: its names and floats are fine, it is not `None`, it is no parameter, and if it is a qubit
+reference its source is no parameter and is named legally -/
+def ArgC (P : String → Prop) (R : Dec → Prop) (v : Val) : Prop :=
+  ArgP P R v ∧ okArg v = true ∧ ArgQ P [] v
+
+theorem ArgC.notParam {P : String → Prop} {R : Dec → Prop} {v : Val} (h : ArgC P R v) : ExpandMacros.isParam v = false := by
+  cases v <;> first | rfl | (exact absurd h.2.2 (by simp [ArgQ]))
+
+mutual
+  def QS (P : String → Prop) (S : List String) : Stmt → Prop
+    | .gate _ _ args => ∀ a ∈ args, ArgQ P S a.2 ∧ okArg a.2 = true
+    | .block _ _ _ b => QSL P S b
+    | .loop _ b => QS P S b
+  def QSL (P : String → Prop) (S : List String) : List Stmt → Prop
+    | [] => True
+    | s :: r => QS P S s ∧ QSL P S r
+end
+
+theorem refP_filterFloat {v : Val} (h : RefP P v) : RefP P (filterFloat v) := by
+  cases v <;> try exact h
+  simp only [filterFloat]; split <;> trivial
+
+theorem refP_of_argP {v : Val} (h : ArgP P R v) : RefP P v := by
+  cases v <;> trivial
+
+/-- a substituted index / bound / count keeps legal names -/
+theorem substVal_refP {args : List (String × Val)} (hargs : ∀ a ∈ args, ArgP P R a.2) {v v' : Val} (hv : RefP P v)
+    (h : substVal args v = .ok v') : RefP P v' := by
+  cases v with
+  | param n k =>
+    rcases substVal_param h with hl | ⟨_, rfl⟩
+    · obtain ⟨e, he, rfl⟩ := lookupArg_mem hl; exact refP_of_argP (hargs e he)
+    · exact hv
+  | qubit n s i =>
+    obtain ⟨s', i', nm, _, _, _, _, rfl⟩ := substVal_qubit_inv h
+    trivial
+  | _ => simp only [substVal, pure, Except.pure, Except.ok.injEq] at h; subst h; exact hv
+
+theorem isReg_of_arrayLike {v : Val} (ha : isArrayLike v = true) (hp : ExpandMacros.isParam v = false) : isReg v = true := by
+  cases v <;> simp [isArrayLike, ExpandMacros.isParam] at ha hp <;> rfl
+
+theorem argP_reg {v : Val} (hr : isReg v = true) (h : ArgP P R v) : P (Pipeline.nameOf v) := by
+  cases v <;> simp [isReg] at hr <;> exact h
+
+/-- **the substitution**: a value of a macro body with the closed arguments of the call written in is a closed argument -/
+theorem substVal_argC {S : List String} {args : List (String × Val)} (hargs : ∀ a ∈ args, ArgC P R a.2)
+    (hcov : ∀ p ∈ S, ∃ a, lookupArg args p = some a) {v v' : Val} (hP : ArgP P R v) (hok : okArg v = true)
+    (hq : ArgQ P S v) (h : substVal args v = .ok v') : ArgC P R v' := by
+  cases v with
+  | param n k =>
+    obtain ⟨a, ha⟩ := hcov n hq
+    rcases substVal_param h with hl | ⟨hl, _⟩
+    · obtain ⟨e, he, rfl⟩ := lookupArg_mem hl; exact hargs e he
+    · rw [ha] at hl; cases hl
+  | qubit n s i =>
+    obtain ⟨hPs, hRi, hsc⟩ := hq
+    obtain ⟨s', i', nm, hs, ha, hi, hg, rfl⟩ := substVal_qubit_inv h
+    -- the source is a register with a legal name
+    have hS : isReg s' = true ∧ P (Pipeline.nameOf s') := by
+      cases s with
+      | param sn sk =>
+        obtain ⟨a, ha'⟩ := hcov sn (hsc sn sk rfl)
+        rcases substVal_param hs with hl | ⟨hl, _⟩
+        · obtain ⟨e, he, rfl⟩ := lookupArg_mem hl
+          have hr := isReg_of_arrayLike ha (hargs e he).notParam
+          exact ⟨hr, argP_reg hr (hargs e he).1⟩
+        · rw [ha'] at hl; cases hl
+      | qubit _ _ _ =>
+        obtain ⟨_, _, _, _, _, _, _, rfl⟩ := substVal_qubit_inv hs
+        simp [isArrayLike] at ha
+      | _ =>
+        simp only [substVal, pure, Except.pure, Except.ok.injEq] at hs; subst hs
+        exact ⟨isReg_of_arrayLike ha rfl, hPs⟩
+    -- the index
+    have hRi' : RefP P (filterFloat i') := refP_filterFloat (substVal_refP (fun a ha => (hargs a ha).1) hRi hi)
+    -- the name is the item name
+    have hn : ∃ an, s'.name? = some an := by
+      cases s' <;> simp [isReg] at hS <;> exact ⟨_, rfl⟩
+    obtain ⟨an, han⟩ := hn
+    have hg' : (do
+        checkQubit s' (filterFloat i')
+        let t ← strIndex (filterFloat i')
+        pure (Val.qubit (an ++ "[" ++ t ++ "]") s' (filterFloat i')) : M Val) = .ok (.qubit nm s' (filterFloat i')) := by
+      unfold ExpandMacros.getItem at hg
+      cases s' <;> simp [isReg] at hS <;> simp only [Val.name?, Option.some.injEq] at han hg <;> subst han <;> exact hg
+    obtain ⟨u, hu, hg'⟩ := bnd hg'
+    obtain ⟨t, ht, hg'⟩ := bnd hg'
+    simp only [pure, Except.pure, Except.ok.injEq, Val.qubit.injEq, and_true] at hg'
+    have hor := checkQubit_okRef hS.1 (by cases u; exact hu)
+    have hitem : isItem nm s' (filterFloat i') = true := by
+      simp only [isItem, han, hor, Bool.true_and, beq_iff_eq]
+      rw [itemName_strIndex hor ht, hg']
+    refine ⟨?_, rfl, hS.2, hRi', ?_⟩
+    · simp only [ArgP, hitem, if_true]
+      exact ⟨hS.2, hRi'⟩
+    · intro sn sk hsn
+      have := hS.1
+      rw [hsn] at this
+      simp [isReg] at this
+  | _ =>
+    simp only [substVal, pure, Except.pure, Except.ok.injEq] at h; subst h
+    exact ⟨hP, hok, trivial⟩
+
+theorem substArgs_argC {S : List String} {args : List (String × Val)} (hargs : ∀ a ∈ args, ArgC P R a.2)
+    (hcov : ∀ p ∈ S, ∃ a, lookupArg args p = some a) :
+    ∀ (gargs new : List (String × Val)), ArgsP P R gargs → (∀ a ∈ gargs, ArgQ P S a.2 ∧ okArg a.2 = true) →
+      substArgs args gargs = .ok new → new.map (·.1) = gargs.map (·.1) ∧ ∀ a ∈ new, ArgC P R a.2
+  | [], new, _, _, h => by simp only [substArgs, pure, Except.pure, Except.ok.injEq] at h; subst h; simp
+  | (n, v) :: rest, new, hg, hq, h => by
+    simp only [substArgs] at h
+    obtain ⟨v', h1, h⟩ := bnd h
+    obtain ⟨rest', h2, h⟩ := bnd h
+    simp only [pure, Except.pure, Except.ok.injEq] at h; subst h
+    simp only [ArgsP] at hg
+    obtain ⟨i1, i2⟩ := substArgs_argC hargs hcov rest rest' hg.2 (fun a ha => hq a (by simp [ha])) h2
+    refine ⟨by simp [i1], ?_⟩
+    intro a ha
+    rcases List.mem_cons.1 ha with rfl | ha
+    · have := hq (n, v) (by simp)
+      exact substVal_argC hargs hcov hg.1 this.2 this.1 h1
+    · exact i2 a ha
+
+theorem argsP_of_forall : ∀ {l : List (String × Val)}, (∀ a ∈ l, ArgP P R a.2) → ArgsP P R l
+  | [], _ => trivial
+  | x :: r, h => ⟨h x (by simp), argsP_of_forall (fun a ha => h a (by simp [ha]))⟩
+
+theorem argsP_mem : ∀ {l : List (String × Val)}, ArgsP P R l → ∀ a ∈ l, ArgP P R a.2
+  | [], _, a, ha => by cases ha
+  | x :: r, h, a, ha => by
+    rcases List.mem_cons.1 ha with rfl | ha
+    · exact h.1
+    · exact argsP_mem h.2 a ha
+
+theorem QSL_append {S : List String} : ∀ (a b : List Stmt), QSL P S a → QSL P S b → QSL P S (a ++ b)
+  | [], _, _, hb => hb
+  | s :: r, b, ha, hb => ⟨ha.1, QSL_append r b ha.2 hb⟩
+
+/-- the output predicate: legal names and floats, closed arguments -/
+def OutS (P : String → Prop) (R : Dec → Prop) (s : Stmt) : Prop := StmtP P R s ∧ QS P [] s
+def OutL (P : String → Prop) (R : Dec → Prop) (l : List Stmt) : Prop := ItemsP P R l ∧ QSL P [] l
+
+theorem outL_spliceInto (par : Bool) (s : Stmt) (r : List Stmt) (hs : OutS P R s) (hr : OutL P R r) :
+    OutL P R (spliceInto par s r) := by
+  unfold spliceInto
+  split
+  · next p it b =>
+    split
+    · obtain ⟨h1, h2⟩ := hs
+      simp only [StmtP] at h1
+      simp only [QS] at h2
+      exact ⟨itemsP_append _ _ h1.2 hr.1, QSL_append _ _ h2 hr.2⟩
+    · exact ⟨⟨hs.1, hr.1⟩, ⟨hs.2, hr.2⟩⟩
+  · exact ⟨⟨hs.1, hr.1⟩, ⟨hs.2, hr.2⟩⟩
+
+section stm
+variable (ms : List Macro)
+
+/-- what the induction needs of a gate statement: it binds the parameters of its definition, and carries the parameters of
+the macro it names -/
+def GSh (n : String) (gd : GateDef) (a : List (String × Val)) : Prop :=
+  a.map (·.1) = gd.params.map (·.1) ∧ ∀ m, findMacro ms n = some m → gd.params = m.params
+
+def CallN (P : String → Prop) (R : Dec → Prop) (call : Stmt → M Stmt) : Prop :=
+  ∀ (n : String) (gd : GateDef) (a : List (String × Val)) (g' : Stmt), P n → GSh ms n gd a →
+    (∀ e ∈ a, ArgC P R e.2) → call (.gate n gd a) = .ok g' → OutS P R g'
+
+theorem wfGate_inv {n : String} {gd : GateDef} {a : List (String × Val)} (h : wfGate ms n gd a = true) :
+    n = gd.name ∧ a.map (·.1) = gd.params.map (·.1) ∧ (gd.params.map (·.1)).Nodup ∧
+      ∀ m, findMacro ms n = some m → gd.params = m.params := by
+  simp only [wfGate, Bool.and_eq_true, beq_iff_eq, decide_eq_true_eq] at h
+  obtain ⟨⟨⟨⟨hname, hnames⟩, hnd⟩, _⟩, hfm⟩ := h
+  refine ⟨hname, hnames, hnd, ?_⟩
+  intro m hm
+  rw [hm] at hfm
+  simpa using hfm
+
+mutual
+  theorem replStmt_names (call : Stmt → M Stmt) (hc : CallN ms P R call) (S : List String) (args : List (String × Val))
+      (hargs : ∀ a ∈ args, ArgC P R a.2) (hcov : ∀ p ∈ S, ∃ a, lookupArg args p = some a) :
+      ∀ (s s' : Stmt), wfStmt ms s = true → StmtP P R s → QS P S s → replStmt call args s = .ok s' → OutS P R s'
+    | .gate n gd gargs, s', hw, hp, hq, h => by
+      simp only [replStmt] at h
+      obtain ⟨new, h1, h⟩ := bnd h
+      obtain ⟨g, h2, h⟩ := bnd h
+      simp only [StmtP] at hp
+      simp only [QS] at hq
+      simp only [wfStmt] at hw
+      obtain ⟨hname, hnames, hnd, hfm⟩ := wfGate_inv ms hw
+      obtain ⟨hn, hnew⟩ := substArgs_argC hargs hcov gargs new hp.2 hq h1
+      have hg := callKw_ok h2 (by rw [hn]; exact hnames) hnd
+      subst hg
+      exact hc _ _ _ _ (hname ▸ hp.1) ⟨by rw [hn]; exact hnames, hname ▸ hfm⟩ hnew h
+    | .loop c body, s', hw, hp, hq, h => by
+      simp only [replStmt] at h
+      obtain ⟨c', h1, h⟩ := bnd h
+      obtain ⟨b', h2, h⟩ := bnd h
+      obtain ⟨rfl, _⟩ := mkLoop_ok h
+      simp only [StmtP] at hp
+      simp only [QS] at hq
+      simp only [wfStmt, Bool.and_eq_true] at hw
+      have ih := replStmt_names call hc S args hargs hcov body b' hw.2 hp.2 hq h2
+      exact ⟨⟨substVal_refP (fun a ha => (hargs a ha).1) hp.1 h1, ih.1⟩, ih.2⟩
+    | .block par sub it body, s', hw, hp, hq, h => by
+      simp only [replStmt] at h
+      obtain ⟨stmts, h1, h⟩ := bnd h
+      obtain ⟨it', h2, h⟩ := bnd h
+      obtain ⟨rfl, _⟩ := mkBlock_inv h
+      simp only [StmtP] at hp
+      simp only [QS] at hq
+      simp only [wfStmt, Bool.and_eq_true] at hw
+      have ih := replList_names call hc S args hargs hcov par body stmts hw.2 hp.2 hq h1
+      exact ⟨⟨substVal_refP (fun a ha => (hargs a ha).1) hp.1 h2, ih.1⟩, ih.2⟩
+  theorem replList_names (call : Stmt → M Stmt) (hc : CallN ms P R call) (S : List String) (args : List (String × Val))
+      (hargs : ∀ a ∈ args, ArgC P R a.2) (hcov : ∀ p ∈ S, ∃ a, lookupArg args p = some a) (par : Bool) :
+      ∀ (l l' : List Stmt), wfStmtList ms l = true → ItemsP P R l → QSL P S l → replList call args par l = .ok l' →
+        OutL P R l'
+    | [], l', _, _, _, h => by
+      simp only [replList, pure, Except.pure, Except.ok.injEq] at h; subst h; exact ⟨trivial, trivial⟩
+    | s :: r, l', hw, hp, hq, h => by
+      simp only [replList] at h
+      obtain ⟨s', h1, h⟩ := bnd h
+      obtain ⟨r', h2, h⟩ := bnd h
+      simp only [pure, Except.pure, Except.ok.injEq] at h; subst h
+      simp only [wfStmtList, Bool.and_eq_true] at hw
+      exact outL_spliceInto par s' r' (replStmt_names call hc S args hargs hcov s s' hw.1 hp.1 hq.1 h1)
+        (replList_names call hc S args hargs hcov par r r' hw.2 hp.2 hq.2 h2)
+end
+
+theorem gate_out {n : String} {gd : GateDef} {a : List (String × Val)} (hn : P n) (ha : ∀ e ∈ a, ArgC P R e.2) :
+    OutS P R (.gate n gd a) :=
+  ⟨⟨hn, argsP_of_forall (fun e he => (ha e he).1)⟩, fun e he => ⟨(ha e he).2.2, (ha e he).2.1⟩⟩
+
+theorem replaceGate_names (hwf : wfMacrosFrom ms [] ms = true) (hP : ∀ m ∈ ms, StmtP P R m.body)
+    (hQ : ∀ m ∈ ms, QS P (m.params.map (·.1)) m.body) : ∀ (fuel : Nat), CallN ms P R (replaceGate ms fuel) := by
+  intro fuel
+  induction fuel with
+  | zero =>
+    intro n gd a g' hn hsh ha h
+    simp only [replaceGate] at h
+    cases hf : findMacro ms n with
+    | none => rw [hf] at h; simp only [pure, Except.pure, Except.ok.injEq] at h; subst h; exact gate_out hn ha
+    | some m => rw [hf] at h; simp only at h; split at h <;> cases h
+  | succ f ih =>
+    intro n gd a g' hn hsh ha h
+    simp only [replaceGate] at h
+    cases hf : findMacro ms n with
+    | none => rw [hf] at h; simp only [pure, Except.pure, Except.ok.injEq] at h; subst h; exact gate_out hn ha
+    | some m =>
+      rw [hf] at h; simp only at h
+      split at h
+      · cases h
+      · have hmem : m ∈ ms := by
+          obtain ⟨_, pre, post, hsp, _⟩ := findMacro_some_split hf
+          rw [hsp]; simp
+        refine replStmt_names ms (replaceGate ms f) ih (m.params.map (·.1)) a ha ?_ m.body g'
+          (Passes.wfMacrosFrom_mem ms [] ms hwf m hmem) (hP m hmem) (hQ m hmem) h
+        intro p hp
+        have hp' : p ∈ a.map (·.1) := by rw [hsh.1, hsh.2 m hf]; exact hp
+        unfold lookupArg
+        cases hfd : a.find? (fun x => x.1 == p) with
+        | some e => exact ⟨e.2, rfl⟩
+        | none =>
+          exfalso
+          obtain ⟨e, he, rfl⟩ := List.mem_map.1 hp'
+          have := List.find?_eq_none.1 hfd e he
+          simp at this
+
+mutual
+  theorem expStmt_names (call : Stmt → M Stmt) (hc : CallN ms P R call) :
+      ∀ (s s' : Stmt), wfStmt ms s = true → StmtP P R s → QS P [] s → expStmt call s = .ok s' → OutS P R s'
+    | .gate n gd gargs, s', hw, hp, hq, h => by
+      simp only [expStmt] at h
+      simp only [StmtP] at hp
+      simp only [QS] at hq
+      simp only [wfStmt] at hw
+      obtain ⟨hname, hnames, hnd, hfm⟩ := wfGate_inv ms hw
+      exact hc _ _ _ _ hp.1 ⟨hnames, hfm⟩ (fun e he => ⟨argsP_mem hp.2 e he, (hq e he).2, (hq e he).1⟩) h
+    | .loop c body, s', hw, hp, hq, h => by
+      simp only [expStmt] at h
+      obtain ⟨b', h2, h⟩ := bnd h
+      obtain ⟨rfl, _⟩ := mkLoop_ok h
+      simp only [StmtP] at hp
+      simp only [QS] at hq
+      simp only [wfStmt, Bool.and_eq_true] at hw
+      have ih := expStmt_names call hc body b' hw.2 hp.2 hq h2
+      exact ⟨⟨hp.1, ih.1⟩, ih.2⟩
+    | .block par sub it body, s', hw, hp, hq, h => by
+      simp only [expStmt] at h
+      obtain ⟨stmts, h1, h⟩ := bnd h
+      obtain ⟨rfl, _⟩ := mkBlock_inv h
+      simp only [StmtP] at hp
+      simp only [QS] at hq
+      simp only [wfStmt, Bool.and_eq_true] at hw
+      have ih := expList_names call hc par body stmts hw.2 hp.2 hq h1
+      exact ⟨⟨hp.1, ih.1⟩, ih.2⟩
+  theorem expList_names (call : Stmt → M Stmt) (hc : CallN ms P R call) (par : Bool) :
+      ∀ (l l' : List Stmt), wfStmtList ms l = true → ItemsP P R l → QSL P [] l → expList call par l = .ok l' → OutL P R l'
+    | [], l', _, _, _, h => by
+      simp only [expList, pure, Except.pure, Except.ok.injEq] at h; subst h; exact ⟨trivial, trivial⟩
+    | s :: r, l', hw, hp, hq, h => by
+      simp only [expList] at h
+      obtain ⟨s', h1, h⟩ := bnd h
+      obtain ⟨r', h2, h⟩ := bnd h
+      simp only [pure, Except.pure, Except.ok.injEq] at h; subst h
+      simp only [wfStmtList, Bool.and_eq_true] at hw
+      exact outL_spliceInto par s' r' (expStmt_names call hc s s' hw.1 hp.1 hq.1 h1)
+        (expList_names call hc par r r' hw.2 hp.2 hq.2 h2)
+end
+
+end stm
+end layerB
+
+/-- what layer B of `expand_macros` needs beyond `NamesOK`: no parameter in the body, only its own in a macro body; every
+qubit reference names its source and its index legally (`NamesOK` says so only of the references written as elements) -/
+structure QualC (P : String → Prop) (c : Circuit) : Prop where
+  body : QS P [] c.body
+  macros : ∀ m ∈ c.macros, QS P (m.params.map (·.1)) m.body
+
+/-- **layer B for `expand_macros`**: the result of a legal, `NamesOK`, `QualC` circuit is `NamesOK` and `QualC` -/
+theorem macros_namesOK {p : Bool} {c c' : Circuit} (hL : Passes.Legal c) (hn : NamesOK c) (hq : QualC LegalName c)
+    (h : Passes.apply (.macros p) c = .ok c') : NamesOK c' ∧ QualC LegalName c' := by
+  have h' : expandMacros p c = .ok c' := h
+  obtain ⟨bs, hb⟩ := hL.wf2.body
+  obtain ⟨body, stmts, hexp, hs, rfl⟩ := Jaqal.ExpandMacros.expand_ok h'
+  have hw := hL.wf1
+  simp only [WellFormed, Bool.and_eq_true] at hw
+  obtain ⟨⟨⟨⟨hwm, hwb⟩, _⟩, hTb⟩, hTm⟩ := hw
+  have hcall := replaceGate_names (P := LegalName) (R := FloatOK) c.macros hwm (fun m hm => (hn.macros m hm).2.2)
+    hq.macros c.macros.length
+  have hqb := hq.body
+  rw [hb] at hexp hwb hqb
+  simp only [expStmt] at hexp
+  obtain ⟨l, hl, hexp⟩ := bnd hexp
+  obtain ⟨rfl, _⟩ := mkBlock_inv hexp
+  simp only [statementsOf, pure, Except.pure, Except.ok.injEq] at hs; subst hs
+  simp only [wfStmt, Bool.and_eq_true] at hwb
+  simp only [QS] at hqb
+  have hitems : ItemsP LegalName FloatOK bs := itemsP_of_mem (by
+    intro s hs; exact hn.stmts s (by rw [hb]; exact hs))
+  have hout := expList_names c.macros _ hcall false bs l hwb.2 hitems hqb hl
+  refine ⟨⟨hn.consts, hn.regs, ?_, ?_, hn.mods⟩, ⟨hout.2, ?_⟩⟩
+  · intro m hm
+    cases p
+    · cases hm
+    · exact hn.macros m hm
+  · intro s hs
+    exact itemsP_mem hout.1 s hs
+  · intro m hm
+    cases p
+    · cases hm
+    · exact hq.macros m hm
+
+end Jaqal.PassText
+namespace Jaqal.PassText
+open Jaqal Jaqal.Builder Jaqal.Pipeline Jaqal.RoundTrip Jaqal.PyEq
+
+/-! ## `QualC` of a parsed circuit -/
+
+/-- a qubit reference is written as an element (its name has a bracket) or is a declared alias -/
+def ArgIt (regs : List Val) : Val → Prop
+  | .qubit n src idx => nameOK n = false ∨ Val.qubit n src idx ∈ regs
+  | _ => True
+
+theorem ArgIt.mono {regs regs' : List Val} (h : ∀ x ∈ regs, x ∈ regs') {v : Val} (hv : ArgIt regs v) : ArgIt regs' v := by
+  cases v <;> try exact hv
+  rcases hv with hv | hv
+  · exact Or.inl hv
+  · exact Or.inr (h _ hv)
+
+theorem it_of_from {acc : Acc} (ha : RefAcc acc) (ps : List (String × Kind)) {v : Val}
+    (h : QFrom (acc.ctx.withParams ps).get v) : ArgIt acc.registers v := by
+  cases v <;> try trivial
+  rename_i n src idx
+  rcases h with ⟨hg, hn⟩ | ⟨an, hg, han, hin, hr⟩
+  · rcases withParams_get hg with ⟨k, hk, _⟩ | ⟨_, hg'⟩
+    · cases hk
+    · obtain ⟨_, hin⟩ := ha.ctxIn n _ hg'
+      rcases hin with hin | ⟨m, x, hx⟩
+      · exact Or.inr hin
+      · cases hx
+  · exact Or.inl (itemName_bracket hin)
+
+structure ItAcc (acc : Acc) : Prop where
+  stmts : ∀ s ∈ acc.stmts, StmtAll (ArgIt acc.registers) s
+  macros : ∀ m ∈ acc.macros, StmtAll (ArgIt acc.registers) m.body
+
+theorem it_apply {a : Acc} {st : St} {o : Obj} (ha : RefAcc a) (hi : ItAcc a) (ho : ObjF a.ctx o) (hg : Guard a st o) :
+    ItAcc (applyObj a st o) := by
+  cases o with
+  | val v =>
+    obtain ⟨n, c, hv, hfresh⟩ := hg
+    rw [applyObj_val hv]
+    have hsub := pushVar_regs_sub a st n v c
+    refine ⟨fun s hs => ?_, fun m hm => ?_⟩
+    · have hs' : s ∈ a.stmts := by cases c <;> simpa [pushVar] using hs
+      exact StmtAll.mono (fun w hw => ArgIt.mono hsub hw) s (hi.stmts s hs')
+    · have hm' : m ∈ a.macros := by cases c <;> simpa [pushVar] using hm
+      exact StmtAll.mono (fun w hw => ArgIt.mono hsub hw) m.body (hi.macros m hm')
+  | «macro» m =>
+    refine ⟨hi.stmts, ?_⟩
+    intro w hw
+    rcases mem_snoc hw with hw | rfl
+    · exact hi.macros w hw
+    · exact StmtAll.mono (fun v hv => it_of_from ha _ hv) _ ho
+  | stmt s =>
+    refine ⟨?_, hi.macros⟩
+    intro w hw
+    rcases mem_snoc hw with hw | rfl
+    · exact hi.stmts w hw
+    · have ho' : StmtAll (QFrom (a.ctx.withParams []).get) w := by rw [withParams_nil]; exact ho
+      exact StmtAll.mono (fun v hv => it_of_from ha [] hv) _ ho'
+  | usepulses n => exact ⟨hi.stmts, hi.macros⟩
+  | case => exact hi
+
+theorem it_loop {cfg : Config} (hauto : cfg.autoload = false)
+    {inject : Option (List (String × GateDef))} {F : Nat} :
+    ∀ (cs : List BSx) (a r : Acc), TopInv a → RefAcc a → ItAcc a → (∀ x ∈ cs, RoundTrip.GChild x ∧ noBr x = true) →
+    circuitLoop cfg .off inject F a cs = .ok r → ItAcc r
+  | [], a, r, _, _, hi, _, h => by
+    simp only [circuitLoop, pure, Except.pure, Except.ok.injEq] at h
+    subst h
+    exact hi
+  | x :: cs, a, r, ht, ha, hi, hcs, h => by
+    simp only [circuitLoop] at h
+    obtain ⟨a1, hstep, hrest⟩ := bind_ok h
+    have hx := hcs x (by simp)
+    have ht1 := (step_child hauto ht hx.1 hx.2 hstep).inv
+    have ha1 := ref_step hauto ht ha hx.1 hx.2 hstep
+    have hi1 : ItAcc a1 := by
+      obtain ⟨o, st1, hf, htl⟩ := step_facts ht hx.1 hx.2 hstep
+      obtain ⟨hg, rfl⟩ := step_apply hauto hf ht.k htl
+      exact it_apply ha hi (child_from ht.ctxN ht.k hx.1 hx.2 hf.build) hg
+    exact it_loop hauto cs a1 r ht1 ha1 hi1 (fun y hy => hcs y (by simp [hy])) hrest
+
+/-- every qubit reference of a circuit built from a program of the grammar (any configuration) is written as an element
+or is a declared alias -/
+theorem buildNoMemo_it_any (cfg : Config) {hs bs : List BSx} {c : Circuit} (hh : ∀ e ∈ hs, GHeader e)
+    (hb : ∀ e ∈ bs, GTop e) (hnb : ∀ e ∈ hs ++ bs, noBr e = true)
+    (h : buildNoMemo cfg (.list (.str "circuit" :: (hs ++ bs))) = .ok c) :
+    StmtAll (ArgIt c.registers) c.body ∧ ∀ m ∈ c.macros, StmtAll (ArgIt c.registers) m.body := by
+  obtain ⟨cfg', inj', accF, ha', hnat, hloop, rfl⟩ := Autoload.built_plain cfg hh hb h
+  have h0 : RefAcc (acc0 inj') := by
+    refine ⟨?_, ?_, ?_, ?_⟩
+    · intro n v hg; simp [Ctx.get, acc0] at hg
+    · intro n src idx hq; simp [acc0] at hq
+    · intro s hs; simp [acc0] at hs
+    · intro m hm; simp [acc0] at hm
+  have h1 : ItAcc (acc0 inj') := ⟨fun s hs => by simp [acc0] at hs, fun m hm => by simp [acc0] at hm⟩
+  have hF := it_loop ha' _ (acc0 inj') accF (Autoload.topInv_acc0_nat cfg' hnat) h0 h1
+    (fun e he => ⟨Autoload.gchild_of hh hb e he, hnb e he⟩) hloop
+  refine ⟨?_, hF.macros⟩
+  simp only [Acc.toCircuit, StmtAll]
+  exact stmtsAll_of_forall hF.stmts
+
+
+theorem legalName_ne_empty : ¬ LegalName "" := by
+  rintro ⟨⟨c, a, hw, _, _⟩, _⟩
+  simp at hw
+
+theorem argQ_of {regs : List Val} (hregs : ∀ v ∈ regs, DeclP LegalName v) {S : List String} {Sb : String → Bool}
+    (hSb : ∀ n, Sb n = true → n ∈ S) {v : Val} (hP : ArgP LegalName FloatOK v) (hI : ArgIt regs v)
+    (hS : ParIn Sb v = true) : ArgQ LegalName S v ∧ okArg v = true := by
+  cases v with
+  | param n k => exact ⟨hSb n (by simpa [ParIn, parOK] using hS), rfl⟩
+  | qubit n src idx =>
+    refine ⟨?_, rfl⟩
+    have hsc : ∀ s k, src = Val.param s k → s ∈ S := by
+      intro s k hs
+      subst hs
+      simp only [ParIn, parOK, Bool.and_eq_true] at hS
+      exact hSb s hS.1
+    by_cases hit : isItem n src idx = true
+    · simp only [ArgP, hit, if_true] at hP
+      exact ⟨hP.1, hP.2, hsc⟩
+    · simp only [ArgP, hit, Bool.false_eq_true, if_false] at hP
+      have hok := legalName_nameOK hP
+      rcases hI with hI | hI
+      · rw [hok] at hI; cases hI
+      · have := hregs _ hI
+        simp only [DeclP] at this
+        exact ⟨this.2.1, this.2.2, hsc⟩
+  | none => exact absurd hP legalName_ne_empty
+  | str _ => exact absurd hP legalName_ne_empty
+  | _ => exact ⟨trivial, rfl⟩
+
+mutual
+  theorem qs_of {regs : List Val} (hregs : ∀ v ∈ regs, DeclP LegalName v) {S : List String} {Sb : String → Bool}
+      (hSb : ∀ n, Sb n = true → n ∈ S) :
+      ∀ (s : Stmt), StmtP LegalName FloatOK s → StmtAll (ArgIt regs) s → ScS Sb s → QS LegalName S s
+    | .gate n gd args, hp, hi, hs => by
+      simp only [StmtP] at hp
+      simp only [StmtAll] at hi
+      simp only [ScS] at hs
+      simp only [QS]
+      intro a ha
+      exact argQ_of hregs hSb (argsP_mem hp.2 a ha) (hi a ha) (hs a ha)
+    | .loop c b, hp, hi, hs => by
+      simp only [StmtP] at hp
+      simp only [StmtAll] at hi
+      simp only [ScS] at hs
+      simp only [QS]
+      exact qs_of hregs hSb b hp.2 hi hs.2.2
+    | .block _ _ _ body, hp, hi, hs => by
+      simp only [StmtP] at hp
+      simp only [StmtAll] at hi
+      simp only [ScS] at hs
+      simp only [QS]
+      exact qsl_of hregs hSb body hp.2 hi hs
+  theorem qsl_of {regs : List Val} (hregs : ∀ v ∈ regs, DeclP LegalName v) {S : List String} {Sb : String → Bool}
+      (hSb : ∀ n, Sb n = true → n ∈ S) :
+      ∀ (l : List Stmt), ItemsP LegalName FloatOK l → StmtsAll (ArgIt regs) l → ScSL Sb l → QSL LegalName S l
+    | [], _, _, _ => trivial
+    | s :: r, hp, hi, hs => by
+      simp only [ItemsP] at hp
+      simp only [StmtsAll] at hi
+      simp only [ScSL] at hs
+      exact ⟨qs_of hregs hSb s hp.1 hi.1 hs.1, qsl_of hregs hSb r hp.2 hi.2 hs.2⟩
+end
+
+/-- **every parsed circuit is `QualC`**, whatever the configuration -/
+theorem parsed_qualC {cfg : Config} {txt : String} {c : Circuit} (h : parseProgram cfg txt = .ok c) :
+    QualC LegalName c := by
+  have hn := parsed_namesOK h
+  obtain ⟨sx, hs, bs, _, _, hh, hb, hnb, _, hnm, _, _, _⟩ := Autoload.parseProgram_shape h
+  obtain ⟨hib, him⟩ := buildNoMemo_it_any cfg hh hb hnb hnm
+  obtain ⟨_, _, _, hsc⟩ := Passes.parseProgram_facts h
+  obtain ⟨bs', hbody⟩ := (Passes.parsed_legal cfg txt c h).wf2.body
+  refine ⟨?_, ?_⟩
+  · have hscb := hsc.body
+    rw [hbody] at hib hscb ⊢
+    simp only [StmtAll] at hib
+    simp only [ScS] at hscb
+    simp only [QS]
+    refine qsl_of hn.regs (S := []) (Sb := noPar) (by intro n hn'; simp [noPar] at hn') bs' ?_ hib hscb
+    exact itemsP_of_mem (fun s hs' => hn.stmts s (by rw [hbody]; exact hs'))
+  · intro m hm
+    exact qs_of hn.regs (Sb := inNames m.params) (by intro n hn'; simpa [inNames] using hn') m.body
+      (hn.macros m hm).2.2 (him m hm) (hsc.macros m hm)
 
 end Jaqal.PassText
